@@ -16,6 +16,6 @@ for u in units:
     if r.status == 'undecided' and not r.functions:
         continue
     led[u] = {'verified': r.verified, 'errors': r.errors,
-              'functions': sorted(n for n, st in r.functions.items() if st['success']),
+              'functions': sorted(n for n, st in r.functions.items() if st['success'] and 'impl&%' not in n),
               'failing_on_pinned_tree': sorted(f['obligation'] for f in r.failures)}
 json.dump(led, open(led_path, 'w'), indent=1, sort_keys=True)
